@@ -1,4 +1,5 @@
 CONSTANT TraceDevs = {}
+CONSTANT KeepGoing = TRUE
 INIT Init
 NEXT Next
 POSTCONDITION Accepted
